@@ -4,6 +4,7 @@ import (
 	"fmt"
 	"go/token"
 	"go/types"
+	"os"
 	"sort"
 	"strings"
 
@@ -581,14 +582,47 @@ func RuleTransport(r *Report, p *Program, rules aspectSet) {
 					continue
 				}
 				n++
+				if os.Getenv("UHLINT_DEBUG") == "T2" {
+					fmt.Fprintf(os.Stderr, "T2 path %s\n", sf.Name)
+					for _, e := range pa.Events {
+						if e.Kind == "recv" || e.Kind == "go" || e.Kind == "send" || strings.Contains(e.Name, "time.") {
+							fmt.Fprintf(os.Stderr, "    %s %s | arg0.Op=%s\n", e.Kind, cut(e.String(), 160), func() string {
+								if len(e.Args) > 0 && e.Args[0] != nil {
+									return e.Args[0].Op + " " + e.Args[0].Name
+								}
+								return ""
+							}())
+						}
+					}
+				}
 				// the wait: time.Sleep(timeout), or a receive from time.After(timeout)
+				// ... or a receive from the channel of a timer started (after the reader) with time.NewTimer(timeout)
+				timerOf := func(e Event) *Term {
+					if e.Kind != "recv" || len(e.Args) != 1 || e.Args[0] == nil || e.Args[0].Op != "field" || e.Args[0].Name != "C" || len(e.Args[0].Args) != 1 {
+						return nil
+					}
+					t := e.Args[0].Args[0]
+					for t != nil && t.Op == "deref" && len(t.Args) == 1 {
+						t = t.Args[0]
+					}
+					if t != nil && t.Op == "call" && t.Name == "time.NewTimer" && len(t.Args) == 1 {
+						return t
+					}
+					return nil
+				}
 				sl := evIdx(pa, func(e Event) bool {
-					return isCall(e, "time.Sleep") || (e.Kind == "recv" && strings.HasPrefix(e.Name, "time.After"))
+					return isCall(e, "time.Sleep") || (e.Kind == "recv" && strings.HasPrefix(e.Name, "time.After")) || timerOf(e) != nil
 				})
 				waited := ""
 				if len(sl) == 1 {
 					e := pa.Events[sl[0]]
-					if e.Kind == "recv" {
+					if tm := timerOf(e); tm != nil {
+						// the clock starts when the timer is created
+						started := evIdx(pa, func(e2 Event) bool { return e2.Kind == "call" && e2.Result == tm })
+						if len(started) == 1 && started[0] > gos[0] {
+							waited = tm.Args[0].String()
+						}
+					} else if e.Kind == "recv" {
 						if len(e.Args) == 1 && e.Args[0].Op == "call" && len(e.Args[0].Args) == 1 {
 							waited = e.Args[0].Args[0].String()
 						}
@@ -678,7 +712,7 @@ func reachesReuseOption(fn *ssa.Function, depth int, seen map[*ssa.Function]bool
 					return true
 				}
 			}
-			if f.Pkg != nil && strings.HasPrefix(f.Pkg.Pkg.Path(), modPath) {
+			if pk := fnPkg(f); pk != nil && strings.HasPrefix(pk.Pkg.Path(), modPath) {
 				if reachesReuseOption(f, depth+1, seen) {
 					return true
 				}
@@ -1281,7 +1315,10 @@ func RuleShareIn(r *Report, p *Program, rules aspectSet, keep func(parent string
 						if fn.Signature.Results().Len() == 2 {
 							for _, pa := range paths {
 								for _, e := range pa.Events {
-									if _, plain := e.Instr.(*ssa.Send); plain && e.Kind == "send" {
+									if snd, plain := e.Instr.(*ssa.Send); plain && e.Kind == "send" {
+										if sendFitsBuffer(fn, gt, snd, paths) {
+											continue // a buffered channel with room for everything this goroutine ever sends on it
+										}
 										blocksOnSend = p.Pos(e.Pos)
 									}
 								}
@@ -1304,6 +1341,127 @@ func RuleShareIn(r *Report, p *Program, rules aspectSet, keep func(parent string
 		}
 	}
 	r.Count("go_statements", nGo)
+}
+
+// sendFitsBuffer: the plain send snd of the goroutine gt (started once by parent, not in a loop) goes to a
+// channel the parent made with a constant capacity, on which nothing else sends, and no path of the goroutine
+// sends on it more often than that capacity: the send can never block.
+func sendFitsBuffer(parent *ssa.Function, gt *goTarget, snd *ssa.Send, paths []Path) bool {
+	ch := snd.Chan
+	if ld, ok := ch.(*ssa.UnOp); ok && ld.Op == token.MUL {
+		ch = ld.X
+	}
+	var outer ssa.Value
+	for i, in := range gt.Inner {
+		if in == ch {
+			outer = gt.Outer[i]
+		}
+	}
+	if outer == nil {
+		return false
+	}
+	var mk *ssa.MakeChan
+	if al, ok := outer.(*ssa.Alloc); ok && al.Referrers() != nil {
+		n := 0
+		for _, ref := range *al.Referrers() {
+			if st, ok := ref.(*ssa.Store); ok && st.Addr == ssa.Value(al) {
+				n++
+				mk, _ = st.Val.(*ssa.MakeChan)
+			}
+		}
+		if n != 1 {
+			return false
+		}
+	} else {
+		mk, _ = outer.(*ssa.MakeChan)
+	}
+	if mk == nil {
+		return false
+	}
+	size, ok := constInt(mk.Size)
+	if !ok || size < 1 {
+		return false
+	}
+	// the goroutine is started once: its go statement is not inside a loop of the parent
+	if inLoop(gt.Go.Block()) {
+		return false
+	}
+	// no other sender: the parent, and other goroutines it starts, do not send on the channel
+	isCh := func(v ssa.Value) bool {
+		if ld, ok := v.(*ssa.UnOp); ok && ld.Op == token.MUL {
+			v = ld.X
+		}
+		return v == outer || v == ssa.Value(mk)
+	}
+	for _, b := range parent.Blocks {
+		for _, in := range b.Instrs {
+			switch x := in.(type) {
+			case *ssa.Send:
+				if isCh(x.Chan) {
+					return false
+				}
+			case *ssa.Select:
+				for _, st := range x.States {
+					if st.Dir == types.SendOnly && isCh(st.Chan) {
+						return false
+					}
+				}
+			case *ssa.MakeClosure:
+				if x.Fn != ssa.Value(gt.Fn) {
+					for _, bv := range x.Bindings {
+						if bv == outer {
+							return false // another closure shares the channel
+						}
+					}
+				}
+			}
+		}
+	}
+	// sends per run of the goroutine
+	for _, pa := range paths {
+		n := int64(0)
+		for _, e := range pa.Events {
+			if e.Kind == "send" && len(e.Args) == 2 {
+				if s2, ok := e.Instr.(*ssa.Send); ok && s2.Chan == snd.Chan {
+					n++
+				} else if sel, ok := e.Instr.(*ssa.Select); ok {
+					for _, st := range sel.States {
+						if st.Dir == types.SendOnly && st.Chan == snd.Chan {
+							n++
+						}
+					}
+				}
+			}
+		}
+		if n > size {
+			return false
+		}
+		if n > 0 && n == size && pa.Outcome != "return" {
+			// a truncated (looping) path that has already used the whole buffer could send again
+			return false
+		}
+	}
+	return true
+}
+
+func inLoop(b *ssa.BasicBlock) bool {
+	seen := map[*ssa.BasicBlock]bool{}
+	var reach func(x *ssa.BasicBlock) bool
+	reach = func(x *ssa.BasicBlock) bool {
+		for _, s := range x.Succs {
+			if s == b {
+				return true
+			}
+			if !seen[s] {
+				seen[s] = true
+				if reach(s) {
+					return true
+				}
+			}
+		}
+		return false
+	}
+	return reach(b)
 }
 
 func rw(w bool) string {
@@ -1384,12 +1542,56 @@ func RuleReadBuffers(r *Report, p *Program) {
 								}
 								if !found {
 									all = false
+									if os.Getenv("UHLINT_DEBUG") == "RB" {
+										fmt.Fprintf(os.Stderr, "RB notfound %s\n", cut(e.String(), 300))
+									}
 								}
 							}
 						}
+						goSeen := map[string]bool{}
 						for _, pa := range sf.Paths {
 							scan(pa.Events)
+							// the read lives in a goroutine started by the socket function: walk the goroutine with the
+							// variables it captured bound to what they held on this path
+							for _, e := range pa.Events {
+								if e.Kind != "go" || e.Result == nil || e.Result.Op != "closure" || e.Result.Fn != fn {
+									continue
+								}
+								sig := ""
+								for _, b := range e.Result.Args {
+									sig += b.String() + "=" + cellText(b) + ";"
+								}
+								sig += pa.State.Describe()
+								if goSeen[sig] {
+									continue
+								}
+								goSeen[sig] = true
+								gw := NewWalker(p)
+								gw.LoopFuel = 2
+								gw.Inline = inlineHelpers([]*ssa.Package{p.SSAPkg("uhppote")}, nil)
+								// what the path established about the values the goroutine shares with it
+								gw.Assume = map[string]IntervalSet{}
+								for k, v := range pa.State.Ints {
+									gw.Assume[k] = v
+								}
+								gw.AssumeBool = map[string]bool{}
+								for k, v := range pa.State.Bools {
+									gw.AssumeBool[k] = v
+								}
+								for _, gp := range gw.Walk(fn, e.Args, e.Result.Args) {
+									if os.Getenv("UHLINT_DEBUG") == "RB" {
+										fmt.Fprintf(os.Stderr, "RB go %s outcome=%s %s\n", calleeName(fn), gp.Outcome, gp.Detail)
+										for _, ge := range gp.Events {
+											fmt.Fprintf(os.Stderr, "    %s\n", cut(ge.String(), 200))
+										}
+									}
+									scan(gp.Events)
+								}
+							}
 						}
+					}
+					if os.Getenv("UHLINT_DEBUG") == "RB" {
+						fmt.Fprintf(os.Stderr, "RB %s all=%v least=%d\n", key, all, least)
 					}
 					if all && least >= 0 {
 						n, known = least, true
@@ -1405,6 +1607,14 @@ func RuleReadBuffers(r *Report, p *Program) {
 			}
 		}
 	}
+}
+
+// cellText: what the storage behind a captured variable holds (for telling two bindings apart).
+func cellText(b *Term) string {
+	if b != nil && b.Op == "ptr" && b.Cell != nil && b.Cell.Val != nil {
+		return cut(b.Cell.Val.String(), 200)
+	}
+	return ""
 }
 
 func sliceLenOf(v ssa.Value) (int64, bool) {
